@@ -1294,7 +1294,14 @@ class Engine:
         env = dict(fr.env)
         env.update(extra)
         for inv in spec.get("invariant", []):
-            self.oblige(kind, self.spec_bool(inv, env, old=True), line, inv)
+            self.generalised = None
+            goal = self.spec_bool(inv, env, old=True)
+            gen, self.generalised = self.generalised, None
+            self.oblige(kind, goal, line, inv if isinstance(inv, str) else getattr(inv, "__name__", "clause"))
+            if gen is not None:
+                # a clause proved for one fresh (unconstrained) value of its bound variable holds for every value: the clause
+                # hands over the quantified statement, which later clauses of the same check may use
+                self.assume(gen)
 
     def assume_invs(self, spec, fr, extra):
         env = dict(fr.env)
